@@ -18,14 +18,26 @@ import (
 //   idle:      after a gap of >= k periods without arrivals of that client the next min(k,max) arrivals are admitted
 //   isolation: a client's outcomes equal those in the history with the other clients' arrivals deleted
 
-const c09Refill = time.Second
+// the refill period of the run (1 s except for the step sets that say otherwise)
+var c09Refill = time.Second
+
+// c09Sweep in a step set stands for one pass of the limiter's own cleanup sweep (the
+// background routine that forgets buckets nobody has used for an hour) instead of a clock step
+const c09Sweep = time.Duration(-1)
 
 // clock steps of the history alphabet: the coarse set reaches idle periods of several refills,
 // the fine set paces arrivals at fractions of one refill period (0.3, 0.6, 0.9, 1.2 ...)
 var c09StepSets = map[string][]time.Duration{
 	"coarse": {400 * time.Millisecond, time.Second, 3100 * time.Millisecond},
 	"fine":   {300 * time.Millisecond, 600 * time.Millisecond, time.Second},
+	// slow refills: the period is long compared with the hour after which the cleanup sweep
+	// forgets a bucket (20 min: five tokens take 100 min to come back; 2 h: longer than the hour)
+	"sweep-20min": {8 * time.Minute, 20 * time.Minute, 61 * time.Minute, c09Sweep},
+	"sweep-2h":    {48 * time.Minute, 61 * time.Minute, 2 * time.Hour, c09Sweep},
+	"sweep-1s":    {400 * time.Millisecond, time.Second, 61 * time.Minute, c09Sweep},
 }
+
+var c09RefillOf = map[string]time.Duration{"sweep-20min": 20 * time.Minute, "sweep-2h": 2 * time.Hour}
 var c09Steps = c09StepSets["coarse"]
 
 func c09UseSteps(name string) {
@@ -33,6 +45,10 @@ func c09UseSteps(name string) {
 		name = "coarse"
 	}
 	c09Steps = c09StepSets[name]
+	c09Refill = time.Second
+	if p, ok := c09RefillOf[name]; ok {
+		c09Refill = p
+	}
 }
 
 type c09Arr struct {
@@ -49,8 +65,10 @@ func c09Run(max, nc int, hist []int) (perClient [][]c09Arr, verdict vrt.Verdict)
 			if e < nc {
 				ok := rl.Allow(fmt.Sprintf("10.0.0.%d", e+1))
 				perClient[e] = append(perClient[e], c09Arr{s.Clock(), ok})
+			} else if st := c09Steps[e-nc]; st == c09Sweep {
+				rl.cleanup()
 			} else {
-				s.AdvanceQuiet(c09Steps[e-nc])
+				s.AdvanceQuiet(st)
 			}
 		}
 	})
@@ -62,6 +80,8 @@ func c09Names(nc int, hist []int) []string {
 	for i, e := range hist {
 		if e < nc {
 			out[i] = string(rune('A' + e))
+		} else if c09Steps[e-nc] == c09Sweep {
+			out[i] = "sweep"
 		} else {
 			out[i] = "+" + c09Steps[e-nc].String()
 		}
@@ -194,7 +214,7 @@ func c09Explore(r *vres.Report, max, nc, depth int, steps string) {
 	rec(0)
 	r.AddScenario(vres.Scenario{
 		Name: fmt.Sprintf("limiter-histories-max%d-clients%d-%s", max, nc, steps), Engine: "H", Executions: evals, States: leaves, Transitions: leaves * int64(depth),
-		Outcomes: outs.N(), Bound: fmt.Sprintf("all histories of length %d over {arrival of each of %d clients, clock steps %v}, refill 1s (client symmetry reduced)", depth, nc, c09Steps),
+		Outcomes: outs.N(), Bound: fmt.Sprintf("all histories of length %d over {arrival of each of %d clients, clock steps %v (-1ns = one pass of the cleanup sweep)}, refill %v (client symmetry reduced)", depth, nc, c09Steps, c09Refill),
 		Exhaustive: true, Sample: map[string]interface{}{"history": c09Names(nc, hist), "max_tokens": max},
 		Extra: map[string]interface{}{"wall_s": time.Since(start).Seconds()},
 	})
@@ -239,6 +259,12 @@ func TestVerifC09H(t *testing.T) {
 			cfgs = append(cfgs, cfg{m, 2, 8, "coarse"})
 		}
 		cfgs = append(cfgs, cfg{2, 3, 7, "coarse"}, cfg{3, 1, 10, "coarse"}, cfg{1, 1, 10, "fine"}, cfg{2, 1, 10, "fine"}, cfg{1, 2, 7, "fine"})
+	}
+	// the cleanup sweep as an event, with refill periods on both sides of its one-hour horizon
+	if vres.Thorough() {
+		cfgs = append(cfgs, cfg{5, 1, 11, "sweep-20min"}, cfg{2, 2, 9, "sweep-20min"}, cfg{2, 1, 11, "sweep-2h"}, cfg{1, 2, 9, "sweep-2h"}, cfg{3, 2, 9, "sweep-1s"})
+	} else {
+		cfgs = append(cfgs, cfg{5, 1, 9, "sweep-20min"}, cfg{2, 1, 9, "sweep-2h"}, cfg{2, 2, 7, "sweep-1s"})
 	}
 	for i, c := range cfgs {
 		if vh.MyShard(i) {
